@@ -339,6 +339,11 @@ NP_BOOL_DTYPES = {"bool_", "bool", "bool8"}
 
 
 OPAQUE_DEFS = {}
+Fuel = z3.Datatype("Fuel")
+Fuel.declare("FZ")
+Fuel.declare("FS", ("pred", Fuel))
+Fuel = Fuel.create()
+FUEL2 = Fuel.FS(Fuel.FS(Fuel.FZ))
 
 
 class Executor:
@@ -449,6 +454,9 @@ class Executor:
         # assumptions created while evaluating spec (e.g. fresh definitions) are kept
         for f in s2.pc[len(st.pc):]:
             st.pc.append(f)
+        for k, hv in s2.heap.items():
+            if k not in st.heap:
+                st.heap[k] = hv
         return v
 
     def spec_bool(self, src, st, extra=None):
@@ -468,7 +476,8 @@ class Executor:
             return VFunc("spec:" + name)
         if spec and name in ("isnan", "isfinite", "isinf", "implies", "old", "len", "abs", "min", "max", "int",
                              "float", "sqrt", "iff", "ite", "all", "any", "range", "floor", "bool", "atan", "atan2", "sin", "cos",
-                             "asin", "exp", "same", "close", "pi", "nan", "inf"):
+                             "asin", "exp", "same", "close", "pi", "nan", "inf", "array_eq", "array2", "nanmean", "nansum",
+                             "nanmin", "nanmax", "nanstd", "nanvar"):
             if name == "pi":
                 self.used_axioms.add("pi")
                 return VFloat(xr.fin(xr.PI))
@@ -901,7 +910,36 @@ class Executor:
         raise Unsupported("subscript of %r" % (base,), n)
 
     def slice_read(self, base, a, idx_nodes, st, n, spec):
-        raise Unsupported("slice read", n)
+        """basic slices a[lo:hi, ...] (step 1) and integer indices: a view as a lambda array.
+        Obligation: 0 <= lo <= hi <= dim (so Python's clamping never applies)."""
+        if len(idx_nodes) != a.ndim:
+            raise Unsupported("slice arity", n)
+        bound = []
+        index = []
+        shape = []
+        for k, e in enumerate(idx_nodes):
+            dim = a.shape[k]
+            if isinstance(e, ast.Slice):
+                if e.step is not None:
+                    raise Unsupported("slice step", n)
+                lo = to_int(self.ev(e.lower, st, spec), n) if e.lower is not None else z3.IntVal(0)
+                hi = to_int(self.ev(e.upper, st, spec), n) if e.upper is not None else dim
+                if not spec:
+                    self.oblige(st, "index", "%s.slice%d" % (self.line_tag(n), k), z3.And(0 <= lo, lo <= hi, hi <= dim), n,
+                                desc="slice bounds within the array (no clamping)")
+                v = z3.Int("sl!%d" % len(bound))
+                bound.append(v)
+                index.append(lo + v)
+                shape.append(hi - lo)
+            else:
+                iv = self.ev(e, st, spec)
+                index.extend(self.index_terms(a, [iv], st, n, spec))
+        t = a.select(index)
+        for v in reversed(bound):
+            t = z3.Lambda([v], t)
+        cell = new_cell("slice")
+        st.heap[cell] = ArrData(t, shape, a.et, a.roots, False)
+        return VRef(cell)
 
     def ev_Attribute(self, n, st, spec):
         # dotted module attribute?
@@ -956,6 +994,23 @@ class Executor:
             return self.quantifier(n.func.id, n.args[0], st, spec)
         if isinstance(n.func, ast.Name) and n.func.id == "old" and spec:
             return self.ev_old(n.args[0], st)
+        if isinstance(n.func, ast.Name) and n.func.id == "array2" and spec and isinstance(n.args[0], ast.Lambda):
+            lam = n.args[0]
+            names = [a.arg for a in lam.args.args]
+            shape = [to_int(self.ev(a, st, True), n) for a in n.args[1:]]
+            if len(names) != len(shape):
+                raise Unsupported("array2 arity", n)
+            ks = [z3.Int("a2!%d" % k) for k in range(len(names))]
+            s2 = st.fork()
+            for nm, k in zip(names, ks):
+                s2.env[nm] = VInt(k)
+            body = self.ev(lam.body, s2, True)
+            t = to_float(body, n)
+            for k in reversed(ks):
+                t = z3.Lambda([k], t)
+            cell = new_cell("array2")
+            st.heap[cell] = ArrData(t, shape, "f", frozenset(), True)
+            return VRef(cell)
         f = self.ev(n.func, st, spec)
         if not isinstance(f, VFunc):
             if isinstance(f, VDType):
@@ -1107,15 +1162,27 @@ class Executor:
             return self.call_uf(name, args, st, n)
         raise Unsupported("call %s" % name, n)
 
+    def restrict(self, d):
+        """canonical form of an array value: elements outside the shape replaced by a default, so that two arrays
+        with equal shapes and equal in-range elements are equal terms (extensionality)"""
+        ks = [z3.Int("rs!%d" % k) for k in range(d.ndim)]
+        inr = z3.And(*[z3.And(k >= 0, k < sh) for k, sh in zip(ks, d.shape)])
+        dflt = {"f": xr.NAN, "i": z3.IntVal(0), "b": z3.BoolVal(False)}[d.et]
+        t = z3.If(inr, d.select(ks), dflt)
+        for k in reversed(ks):
+            t = z3.Lambda([k], t)
+        return t
+
     def call_uf(self, name, args, st, n):
-        """uninterpreted function parameter (e.g. a user reducer)"""
+        """uninterpreted function of its arguments (a user reducer, a NumPy reduction under an assumed contract)"""
         sorts = []
         terms = []
         for a in args:
             if isinstance(a, VRef):
                 d = st.heap[a.cell]
-                terms.append(d.elems)
-                sorts.append(d.elems.sort())
+                r = self.restrict(d)
+                terms.append(r)
+                sorts.append(r.sort())
                 for s in d.shape:
                     terms.append(s)
                     sorts.append(z3.IntSort())
@@ -1189,6 +1256,11 @@ class Executor:
             return VFloat(getattr(xr, b)(to_float(args[0], n)))
         if b == "atan2":
             return VFloat(xr.atan2(to_float(args[0], n), to_float(args[1], n)))
+        if b in ("nanmean", "nansum", "nanmin", "nanmax", "nanstd", "nanvar"):
+            return self.call_uf("np_" + b, args, st, n)
+        if b == "array_eq":
+            da_, db_ = st.heap[args[0].cell], st.heap[args[1].cell]
+            return VBool(z3.And(*([x == y for x, y in zip(da_.shape, db_.shape)] + [self.restrict(da_) == self.restrict(db_)])))
         if b in ("same", "close"):
             # value identity including NaN (exact in the XR model; tolerant only in native replay)
             x, y = to_float(args[0], n), to_float(args[1], n)
@@ -1206,8 +1278,11 @@ class Executor:
 
     def call_spec(self, name, args, st, n):
         fnode = self.spec_funcs()[name]
-        if name in getattr(self.specmod, "OPAQUE", ()) and not getattr(self, "_defining", False):
+        if name in getattr(self.specmod, "OPAQUE", ()) or name in getattr(self.specmod, "RECURSIVE", {}):
             return self.call_opaque(name, fnode, args, st, n)
+        return self.inline_spec(name, fnode, args, st, n)
+
+    def inline_spec(self, name, fnode, args, st, n):
         sub = st.fork()
         sub.env = {}
         for p, a in zip(fnode.args.args, args):
@@ -1227,6 +1302,10 @@ class Executor:
         rets = [o for o in outs if o.status == "return"]
         if not rets or len(rets) != len(outs):
             raise Unsupported("spec function %s must return on every path" % name, n)
+        for o in rets:
+            for k, v in o.heap.items():
+                if k not in st.heap:
+                    st.heap[k] = v
         # combine: each return state has extra pc = branch conditions
         base = len(st.pc)
         res = rets[-1].ret
@@ -1239,7 +1318,9 @@ class Executor:
 
     def call_opaque(self, name, fnode, args, st, n):
         """spec function kept opaque: uninterpreted symbol + definitional axiom (instantiated by E-matching
-        only at the ground applications that occur in an obligation)"""
+        only at the ground applications that occur in an obligation).  Recursive spec functions
+        (specs.RECURSIVE: name -> result type) additionally carry a fuel argument so that the
+        definition unfolds at most twice from any ground application (no matching loop)."""
         sig = []
         terms = []
         for a in args:
@@ -1259,8 +1340,14 @@ class Executor:
             else:
                 raise Unsupported("opaque spec arg %r" % (a,), n)
         key = (name, tuple(sig))
+        rec = getattr(self.specmod, "RECURSIVE", {})
+        is_rec = name in rec
+        cur = getattr(self, "_defining", None)
+        if cur is not None and cur[0] == key:
+            # recursive call inside the definition being built: one unit of fuel less
+            uf, rs = cur[1], cur[2]
+            return {xr.F: VFloat, z3.IntSort(): VInt, z3.BoolSort(): VBool}[rs](uf(cur[3], *terms))
         if key not in OPAQUE_DEFS:
-            # build the definition once, over bound variables
             bvars, bvals = [], []
             tmp = State()
             tmp.old_heap = {}
@@ -1281,28 +1368,46 @@ class Executor:
                     v = z3.Bool("%s!a%d" % (name, k))
                     bvals.append(VBool(v))
                 bvars.append(v)
-            self._defining = True
-            ax_before = set(self.used_axioms)
+            ufname = "spec_" + name + "_" + "".join(x[0] for x in sig)
+            saved = getattr(self, "_defining", None)
+            if is_rec:
+                rs = {"float": xr.F, "int": z3.IntSort(), "bool": z3.BoolSort()}[rec[name]]
+                uf = z3.Function(ufname, *([Fuel] + [v.sort() for v in bvars] + [rs]))
+                fk = z3.Const("%s!fuel" % name, Fuel)
+                self._defining = (key, uf, rs, fk)
+            else:
+                self._defining = (("<inline>", name), None, None, None)
             try:
-                body = self.call_spec(name, bvals, tmp, n)
+                body = self.inline_spec(name, fnode, bvals, tmp, n)
             finally:
-                self._defining = False
+                self._defining = saved
             ax_used = set(self.used_axioms)
             if isinstance(body, VFloat):
-                rs, bt = xr.F, body.t
+                rs2, bt = xr.F, body.t
             elif isinstance(body, VInt):
-                rs, bt = z3.IntSort(), body.t
+                rs2, bt = z3.IntSort(), body.t
             elif isinstance(body, VBool):
-                rs, bt = z3.BoolSort(), body.t
+                rs2, bt = z3.BoolSort(), body.t
             else:
                 raise Unsupported("opaque spec result %r" % (body,), n)
-            uf = z3.Function("spec_" + name + "_" + "".join(x[0] for x in sig), *([v.sort() for v in bvars] + [rs]))
-            ax = z3.ForAll(bvars, uf(*bvars) == bt, patterns=[uf(*bvars)])
-            OPAQUE_DEFS[key] = (uf, ax, rs, ax_used)
-        uf, ax, rs, ax_used = OPAQUE_DEFS[key]
+            if is_rec:
+                if rs2 != rs:
+                    if rs == xr.F and rs2 == z3.IntSort():
+                        bt = xr.from_int(bt)
+                    else:
+                        raise Unsupported("recursive spec %s: declared result type does not match" % name, n)
+                lhs = uf(Fuel.FS(fk), *bvars)
+                ax = z3.And(z3.ForAll([fk] + bvars, lhs == bt, patterns=[lhs]),
+                            z3.ForAll([fk] + bvars, lhs == uf(fk, *bvars), patterns=[lhs]))
+            else:
+                rs = rs2
+                uf = z3.Function(ufname, *([v.sort() for v in bvars] + [rs]))
+                ax = z3.ForAll(bvars, uf(*bvars) == bt, patterns=[uf(*bvars)])
+            OPAQUE_DEFS[key] = (uf, ax, rs, ax_used, is_rec)
+        uf, ax, rs, ax_used, is_rec = OPAQUE_DEFS[key]
         self.used_axioms |= ax_used
         self.defs[key] = ax
-        t = uf(*terms)
+        t = uf(FUEL2, *terms) if is_rec else uf(*terms)
         return {xr.F: VFloat, z3.IntSort(): VInt, z3.BoolSort(): VBool}[rs](t)
 
     MATH1 = {"arctan": "atan", "atan": "atan", "sqrt": "sqrt", "sin": "sin", "cos": "cos", "tan": "tan",
@@ -1334,6 +1439,10 @@ class Executor:
                 if fn == "any":
                     return VBool(z3.Exists(ks, z3.And(rng, a.select(ks))))
                 return VBool(z3.ForAll(ks, z3.Implies(rng, a.select(ks))))
+            if fn in ("nanmean", "nansum", "nanmin", "nanmax", "nanstd", "nanvar", "mean", "sum", "min", "max", "std", "var") \
+                    and isinstance(args[0], VRef) and len(args) == 1 and not kwargs:
+                self.notes.append("assumed: np.%s is a function of the array it is given" % fn)
+                return self.call_uf("np_" + fn, args, st, n)
             if fn == "gradient" and isinstance(args[0], VRef) and len(args) == 1 and not kwargs:
                 return self.np_gradient(args[0], st, n, spec)
             if fn in ("isnan",) and not isinstance(args[0], VRef):
